@@ -33,10 +33,10 @@ type FnCollator[V any] struct {
 }
 
 func (c *FnCollator[V]) GetClass() age.CollatorClassLike[V] { return nil }
-func (c *FnCollator[V]) CompareValues(a, b V) bool           { return c.F(a, b) == age.EqualRank }
-func (c *FnCollator[V]) RankValues(a, b V) age.Rank          { return c.F(a, b) }
-func (c *FnCollator[V]) GetDepth() int                       { return 0 }
-func (c *FnCollator[V]) GetMaximum() int                     { return 16 }
+func (c *FnCollator[V]) CompareValues(a, b V) bool          { return c.F(a, b) == age.EqualRank }
+func (c *FnCollator[V]) RankValues(a, b V) age.Rank         { return c.F(a, b) }
+func (c *FnCollator[V]) GetDepth() int                      { return 0 }
+func (c *FnCollator[V]) GetMaximum() int                    { return 16 }
 
 type cfg[V any] struct {
 	name     string
@@ -208,8 +208,8 @@ func run[V any](r *engine.Rec, c *cfg[V]) {
 		return set, m, out
 	}
 	type result struct {
-		m   []V
-		res any
+		m                   []V
+		res                 any
 		mustPanic, mayPanic bool
 	}
 	model := func(op Op, m []V, opnd []V) result {
@@ -575,6 +575,6 @@ func init() {
 			}
 			return 90 * time.Second
 		},
-		Units:     units,
+		Units: units,
 	})
 }
